@@ -482,7 +482,9 @@ func (self *PathNode) handleChild(in *[]PathNode, lp *int, cp *int, p *binary.Bi
 
 	if tt.IsComplex() {
 		if recurse {
-			p.Buf = p.Buf[start:]
+			// scan the child inside its own bytes only: the scanners below run until the end of the buffer
+			end := p.Read
+			p.Buf = p.Buf[start:end]
 			p.Read = 0
 			parentDesc := desc
 			messageLen := 0
@@ -490,16 +492,18 @@ func (self *PathNode) handleChild(in *[]PathNode, lp *int, cp *int, p *binary.Bi
 				// parentDesc = desc.Message()
 				var err error
 				messageLen, err = p.ReadLength() // the sub message has message byteLen need to read before next recurse for scanChildren
-				if messageLen <= 0 || err != nil {
+				if messageLen < 0 || err != nil {
+					p.Buf = buf
 					return nil, wrapError(meta.ErrRead, "read message length failed", err)
 				}
 			}
 
 			if err := v.scanChildren(p, recurse, opts, parentDesc, messageLen); err != nil {
+				p.Buf = buf
 				return nil, err
 			}
 			p.Buf = buf
-			p.Read = start + p.Read
+			p.Read = end
 		} else {
 			// set complex Node type when lazy load
 			if tt == proto.LIST {
